@@ -69,7 +69,7 @@ def self_test() -> list[str]:
 
 
 # ----------------------------------------------------------------- model ---
-@dataclass
+@dataclass(eq=False)
 class ChopperModel:
     distance: np.longdouble  # m
     t_open: np.ndarray  # s, long double
@@ -80,7 +80,7 @@ class ChopperModel:
         return np.concatenate([self.t_open, self.t_close])
 
 
-@dataclass
+@dataclass(eq=False)
 class Pulse:
     t0: np.longdouble
     t1: np.longdouble
